@@ -540,32 +540,41 @@ impl ErasedList {
     /// Both `self` and `other` must have the same element type.
     ///
     pub unsafe fn concat(&self, other: &Self) -> Self {
-        #[cfg(feature = "verif-hooks")]
-        crate::verif::before_list_lock(&self.0);
-        let a = self.0.lock().unwrap();
+        // Both operands are read in one critical section, so that the
+        // result is a state that `self ++ other` had at a single point in
+        // time. We cannot lock the same mutex twice, hence the special case
+        // for self == other.
+        if Arc::ptr_eq(&self.0, &other.0) {
+            let a = self.0.lock().unwrap();
+
+            let new = Self::new(a.vtable.clone());
+            let mut raw = new.0.lock().unwrap();
+
+            // SAFETY: self and other have the same element type
+            unsafe { raw.extend(&a) };
+            // SAFETY: self and other have the same element type
+            unsafe { raw.extend(&a) };
+
+            drop(raw);
+            drop(a);
+
+            return new;
+        }
+
+        let (a, b) = self.lock_both(other);
 
         let new = Self::new(a.vtable.clone());
-        #[cfg(feature = "verif-hooks")]
-        crate::verif::before_list_lock(&new.0);
         let mut raw = new.0.lock().unwrap();
 
         // SAFETY: self and other have the same element type
         unsafe { raw.extend(&a) };
 
-        // This drop is important in the case that self == other
-        // We need to ensure we don't lock the mutex twice
-        drop(a);
-
-        #[cfg(feature = "verif-hooks")]
-        crate::verif::before_list_lock(&other.0);
-        let b = other.0.lock().unwrap();
-
         // SAFETY: raw and b have the same element type
         unsafe { raw.extend(&b) };
 
-        drop(b);
-
         drop(raw);
+        drop(b);
+        drop(a);
 
         new
     }
